@@ -293,14 +293,11 @@ func H_C18_Block() {
 	vCover("end")
 }
 
-// Quick tier: the product of all optional fields with all lists is too large for this type; two slices of it are
-// explored instead - (every optional field and scalar, no lists / byte strings) and (every list and byte string,
-// no optional fields). The thorough tier explores the full product.
+// The product of all optional fields with all lists is too large for this type; two slices of it are explored
+// instead - (every optional field and scalar, no lists / byte strings) and (every list and byte string, no
+// optional fields); the thorough tier has longer byte strings in the second slice.
 func vC18Slice() {
 	vGenLean, vGenNoOptional = false, false
-	if vThorough() {
-		return
-	}
 	if vChoice("slice", 2) == 0 {
 		vGenLean = true
 	} else {
